@@ -121,6 +121,12 @@ func scenariosFor(prop string) []scn {
 			both(flowParams{Sources: 1, Records: 3, Batch: 1, Dests: 1, AckMenu: onlyOK, AckSendFaults: true, Stop: "stopwait"}, 1, 2)
 			both(flowParams{Sources: 1, Records: 3, Batch: 1, Dests: 1, AckMenu: onlyOK, AckSendFaults: true, Bundle: 2}, 1, 2)
 		}
+		if prop == "C02" {
+			// a flush fails while a later acknowledgment of the same source is already registered; the pipeline recovers inside
+			// the same process (the connector object lives on): what the restart opens with, and what later flushes store
+			both(flowParams{Sources: 1, Records: 4, Batch: 1, Dests: 1, AckMenu: onlyOK, Faults: true, Bundle: 2, LateCommit: true, Retries: 2}, 2, 3)
+			both(flowParams{Sources: 1, Records: 4, Batch: 1, Dests: 1, AckMenu: onlyOK, Faults: true, Retries: 2}, 2, 3)
+		}
 		if prop == "C04" {
 			// (C04 only: its oracle speaks of source acks and positions; the piece bookkeeping of the other properties'
 			// oracles knows one level of splitting)
